@@ -2117,6 +2117,14 @@ impl ToBitStream for SeekPoint {
 
     fn to_writer<W: BitWrite + ?Sized>(&self, w: &mut W) -> Result<(), Self::Error> {
         match self {
+            // an all-ones sample number is how placeholders are stored
+            Self::Defined {
+                sample_offset: u64::MAX,
+                ..
+            } => Err(std::io::Error::new(
+                std::io::ErrorKind::InvalidInput,
+                "seek point sample number is reserved for placeholders",
+            )),
             Self::Defined {
                 sample_offset,
                 byte_offset,
